@@ -50,8 +50,14 @@ def _batcher(draw):
     bdur = draw(st.sampled_from([0, 3 * U, 10 * U]))
     unique = draw(st.booleans())
     calls = draw(BC.timed_calls(10, cfg, bdur, BC.NAMES[:3], explicit_keys=not unique, unique=unique))
+    gc_at = []
+    if draw(st.integers(0, 2)) == 0:
+        # garbage collections while the batcher is idle between calls (the per-loop registry is weak)
+        ts = sorted({c['at'] for c in calls})
+        gc_at = sorted({t + draw(st.sampled_from([cfg['bt'] + bdur + U, cfg['bt'] + bdur + cfg['ret'] / 2, 2 * U]))
+                        for t in draw(st.lists(st.sampled_from(ts), min_size=1, max_size=2))})
     return {'kind': 'batcher', 'cfg': cfg, 'calls': calls, 'behave': {}, 'order': 'fwd', 'bdur': bdur, 'idur': 0,
-            'mutate': None, 'fresh': 0, 'unique': unique}
+            'mutate': None, 'fresh': 0, 'unique': unique, 'gc_at': gc_at}
 
 
 @st.composite
